@@ -355,6 +355,7 @@ func cmdCluster(args []string) int {
 			pol.byz, pol.mutate, pol.garbage = 0, 0, 0
 		}
 		cl := newCluster(ws, byz, 1, rnd.Intn(2) == 0)
+		cl.lenient = rnd.Intn(4) == 0
 		r := &run{cl: cl, adv: newAdversary(cl), rnd: rnd, out: out, chain: map[uint64]commitRec{}, maxH: uint64(*maxH), stats: stats, tmpl: tmpl}
 		r.emitInit(i)
 		r.startNodes()
